@@ -64,6 +64,32 @@ SPECIAL = {
 }
 
 
+CUBIC_FIXED = [
+    [(0, 3), (1, 2), (1, 7), (1, 8), (3, 5), (4, 0), (4, 6), (4, 8), (6, 0), (6, 2), (7, 5), (8, 2), (9, 3), (9, 5), (9, 7)],
+    [(0, 3), (0, 10), (0, 11), (1, 2), (1, 9), (1, 11), (2, 9), (3, 4), (3, 6), (5, 6), (6, 4), (7, 5), (7, 8), (8, 4), (8, 9),
+     (10, 5), (10, 7), (11, 2)],
+    [(1, 10), (2, 1), (2, 10), (3, 0), (3, 6), (3, 9), (4, 1), (4, 5), (5, 7), (6, 0), (6, 4), (8, 0), (8, 7), (8, 11), (9, 5),
+     (9, 10), (11, 2), (11, 7)],
+]
+
+
+def regular3(rng, n):
+    """a random 3-regular simple graph on n nodes (n even), by the pairing model with rejection"""
+    while True:
+        pts = [v for v in range(n) for _ in range(3)]
+        rng.shuffle(pts)
+        es = set()
+        ok = True
+        for i in range(0, len(pts), 2):
+            a, b = pts[i], pts[i + 1]
+            if a == b or (min(a, b), max(a, b)) in es:
+                ok = False
+                break
+            es.add((min(a, b), max(a, b)))
+        if ok:
+            return [list(e) for e in sorted(es)]
+
+
 def special_case(rng):
     name = rng.choice(sorted(SPECIAL))
     n, edges = SPECIAL[name]
@@ -141,6 +167,18 @@ def generate(rng, tier):
             else:
                 G = relabel(rng, n + 1, [list(e) for e in edges] + [[rng.randrange(n), n]])
             cases.append({'steps': [{'P': P, 'G': G, 'reuse': rng.random() < 0.3}]})
+    # cubic graphs of 8 and 10 nodes against themselves: too large for the exhaustive judges, but the matcher has to
+    # answer (3-regular graphs make the partition refinement branch)
+    for n in (8, 10, 10, 12) * (5 if tier == 'quick' else 60):
+        edges = regular3(rng, n)
+        P = relabel(rng, n, edges, lo=100, hi=160)
+        G = relabel(rng, n, edges)
+        cases.append({'steps': [{'P': P, 'G': G, 'queries': ['iso_1']}], 'large': True})
+    # three cubic graphs with small symmetry groups, matched against themselves under the same numbering
+    for edges in CUBIC_FIXED:
+        n = 1 + max(max(e) for e in edges)
+        g = {'nodes': [[k, 1] for k in range(n)], 'edges': [[a, b, 1] for a, b in edges]}
+        cases.append({'steps': [{'P': g, 'G': g, 'queries': ['iso_1']}], 'large': True})
     rng.shuffle(cases)          # balance the evaluation shards
     return cases
 
@@ -213,6 +251,12 @@ def run_impl(inp):
         res = {}
         eq = lambda a, b: a['c'] == b['c']
         # one matcher object may serve several queries one after the other (st['reuse']), or every query gets a fresh one
+        if st.get('queries'):
+            # large graphs: only the symmetric isomorphism query; it has to return
+            ism = ISMAGS(G, P, node_match=eq, edge_match=eq, cache=cache)
+            res['iso_1'] = [_canon(st['P'], m) for m in ism.find_isomorphisms(symmetry=True)]
+            out.append(res)
+            continue
         shared = ISMAGS(G, P, node_match=eq, edge_match=eq, cache=cache) if st.get('reuse') else None
         for sym in (False, True):
             ism = shared or ISMAGS(G, P, node_match=eq, edge_match=eq, cache=cache)
@@ -243,6 +287,8 @@ def maps_lit(ms):
 
 
 def emit(inp, out):
+    if inp.get('large'):
+        return None          # beyond the exhaustive judges: only run on the implementation (it has to return)
     terms = []
     for st, res in zip(inp['steps'], out['steps']):
         P, G = graph_lit(st['P']), graph_lit(st['G'])
@@ -254,7 +300,34 @@ def emit(inp, out):
     return 'CSession [%s]' % '; '.join(terms)
 
 
+def py_prop(inp, out):
+    """large cases (the graph is a renumbered copy of the pattern): all isomorphisms form ONE class under the symmetries of
+    the pattern, so the symmetric query must return exactly one mapping, and it must be an isomorphism"""
+    if not inp.get('large') or not isinstance(out, dict) or 'steps' not in out:
+        return None
+    st, res = inp['steps'][0], out['steps'][0]
+    ms = res['iso_1']
+    if len(ms) != 1:
+        return 'pattern and graph are the same graph under two numberings: exactly one representative expected, %d returned' % len(ms)
+    m = dict(ms[0])
+    pe = {frozenset((a, b)) for a, b, _ in st['P']['edges']}
+    ge = {frozenset((a, b)) for a, b, _ in st['G']['edges']}
+    if sorted(m) != sorted(k for k, _ in st['P']['nodes']) or len(set(m.values())) != len(m) or {frozenset((m[a], m[b])) for a, b in map(tuple, pe)} != ge:
+        return 'the mapping returned for a renumbered copy of the pattern is not an isomorphism: %r' % (ms[0],)
+    return None
+
+
+def known(inp, out):
+    # F32: the symmetry analysis accepts couplings that are not automorphisms on regular graphs; the constraints then exclude
+    # every isomorphism
+    if inp.get('large') and isinstance(out, dict) and 'steps' in out and len(out['steps'][0].get('iso_1', [None])) == 0:
+        return 'F32'
+    return None
+
+
 def nontrivial(inp, out):
+    if inp.get('large'):
+        return str(inp)
     for res in out['steps']:
         if len(res['iso_0']) > len(res['iso_1']) >= 1:
             return str(inp)
@@ -263,6 +336,8 @@ def nontrivial(inp, out):
 
 def describe(inp, out):
     st, res = inp['steps'][0], out['steps'][0]
+    if inp.get('large'):
+        return {'large_cubic': len(st['P']['nodes']), 'n_iso_sym': min(len(res['iso_1']), 6)}
     return {'n_steps': len(inp['steps']), 'p_nodes': len(st['P']['nodes']), 'g_nodes': len(st['G']['nodes']),
             'n_iso': min(len(res['iso_0']), 12), 'n_iso_sym': min(len(res['iso_1']), 6), 'n_constraints': min(len(res['cons']), 6),
             'lcs_size': max([len(m) for m in res['lcs_0']] or [0]),
